@@ -29,7 +29,7 @@ impl Bits {
 fn ll_of(code: u8) -> (u32, u32) { if code < 16 { (code as u32, 0) } else { (16 + 2 * (code as u32 - 16), 1) } } // codes 0..=19 only
 fn ml_of(code: u8) -> (u32, u32) { if code < 32 { (code as u32 + 3, 0) } else { (35 + 2 * (code as u32 - 32), 1) } } // codes 0..=35 only
 
-fn seqdec_two_sequences<const NSEQ: usize>() {
+fn seqdec_two_sequences<const NSEQ: usize, const LEN: usize>() {
     // symbols of the two states of each table
     const LL: [u8; 2] = [2, 16];   // literal length 2 (no extra bits) / 16..17 (1 extra bit)
     const OF: [u8; 2] = [1, 3];    // offset value 2..3 (1 extra bit) / 8..15 (3 extra bits)
@@ -44,7 +44,8 @@ fn seqdec_two_sequences<const NSEQ: usize>() {
     let mut stream: [u8; 3] = nd::any();
     // stream length 1..=3 bytes so that exact consumption is possible for every combination of states (8..16 bits are
     // needed for two sequences); a last byte without the padding marker is a different error (ExtraPadding), decided elsewhere
-    let len: usize = nd::any();
+    // the stream length is case-split (LEN = 0: symbolic 1..=3)
+    let len: usize = if LEN == 0 { nd::any() } else { LEN };
     nd::assume(len >= 1 && len <= 3);
     nd::assume(stream[len - 1] != 0);
     if len < 3 { stream[2] = 0; }
@@ -71,16 +72,18 @@ fn seqdec_two_sequences<const NSEQ: usize>() {
             assert!(target.len() == NSEQ);
             let j: usize = nd::any(); nd::assume(j < NSEQ);
             assert!(target[j].ll == want[j].0 && target[j].ml == want[j].1 && target[j].of == want[j].2, "decoded sequence differs from the RFC decoding order");
-            nd_cover!(NSEQ < 2 || (want[0].0 >= 16 && want[1].2 >= 8), "extra bits of several kinds in use");
-            nd_cover!(NSEQ < 2 || (want[1].0 < 16 && want[1].1 > 3), "second sequence: literal-length state 0 with match-length state 1");
-            nd_cover!(NSEQ < 2 || (want[1].0 >= 16 && want[1].1 == 3), "second sequence: literal-length state 1 with match-length state 0");
+            nd_cover!(NSEQ < 2 || LEN == 3 || (want[0].0 >= 16 && want[1].2 >= 8), "extra bits of several kinds in use");
+            nd_cover!(NSEQ < 2 || LEN == 3 || (want[1].0 < 16 && want[1].1 > 3), "second sequence: literal-length state 0 with match-length state 1");
+            nd_cover!(NSEQ < 2 || LEN == 3 || (want[1].0 >= 16 && want[1].1 == 3), "second sequence: literal-length state 1 with match-length state 0");
         }
         Err(e) => { core::mem::forget(e); assert!(b.pos != 0, "sequence section refused although the bit stream is consumed exactly"); }
     }
-    nd_cover!(b.pos < 0, "stream too short");
+    nd_cover!(LEN == 3 || b.pos < 0, "stream too short");
     nd_cover!(b.pos > 0, "left-over bits");
     core::mem::forget(target); core::mem::forget(scratch);
 }
-harness! { fn seqdec_repeat_tables_one_sequence() { seqdec_two_sequences::<1>(); } }
-harness! { fn seqdec_repeat_tables_two_sequences() { seqdec_two_sequences::<2>(); } }
-harness! { fn seqdec_repeat_tables_three_sequences() { seqdec_two_sequences::<3>(); } }
+harness! { fn seqdec_repeat_tables_one_sequence() { seqdec_two_sequences::<1, 0>(); } }
+harness! { fn seqdec_repeat_tables_two_sequences_len2() { seqdec_two_sequences::<2, 2>(); } }
+harness! { fn seqdec_repeat_tables_two_sequences_len3() { seqdec_two_sequences::<2, 3>(); } }
+harness! { fn seqdec_repeat_tables_two_sequences_len1() { seqdec_two_sequences::<2, 1>(); } }
+harness! { fn seqdec_repeat_tables_three_sequences() { seqdec_two_sequences::<3, 0>(); } }
